@@ -371,7 +371,7 @@ PROPS["C02"] = {
         Job("soyhtml", "H_program", "2,3,1", tier="thorough", workers=16, timeout=5000),
     ],
     "bounds_quick": "template bodies generated from the command grammar (raw text, print, if/else, foreach/ifempty with isLast, let value, let content, call with data=all / data=$m / none and an optional param, switch with multi-value case/default, for-range, special characters/literal/css/log/msg) with at most 2 generated nodes (thorough: 3 and 4) up to nesting depth 2, followed by a fixed trailer printing the params, list lengths 0..2; names drawn from {a,b,i} so that lets shadow params and loop variables; data: a symbolic bool, b symbolic in {p,q}, a list and a map; a second generator profile restricted to output-redirecting blocks (text, print, let content, call with a content param, nested in each other) with at most 3 nodes, depth 2 (thorough: 4 nodes, depth 3); compiled by the real parser (without the data-reference check so that unbound names reach the renderer) and rendered by the real interpreter; compared with an independent big-step reference semantics with block scoping and call isolation",
-    "bounds_thorough": "3 generated nodes for every list length (about 10^6 paths, 30 min)",
+    "bounds_thorough": "3 generated nodes of the full grammar with a one-element list (about 9*10^5 paths, 12 min; all three list lengths did not finish in 50 min and are not registered); content-block profile with 4 nodes, depth 3",
     "outside": "programs beyond the size bound; recursion beyond depth 2; header params",
     "assumptions": ["refRender (c02Env in the harness) is an independent transcription of the Soy command semantics: a let or loop variable lives in the block that introduces it; a callee sees the passed data plus its params only"],
     "level_text": "Bounded model checking over programs: the program is chosen through solver-visible choice variables over the command grammar (an exhaustive enumeration within the size bound, driven through the symbolic executor), the data is symbolic; every program is run through the real parser and interpreter and through an independent reference interpreter.",
